@@ -20,7 +20,7 @@ from .. import units as U
 from ..bufflow import Sym
 from ..geometry import ShapeFlow
 from .. import permcheck
-from .C01 import flow_check, normal_view, unit_view, has_call, ModView, engine, xsrc, canonical_steps
+from .C01 import flow_check, safe_flow_check, normal_view, unit_view, has_call, ModView, engine, xsrc, canonical_steps
 
 CLS = "LayoutSwapper"
 STEP = ("LayoutSwapper._transpose", "LayoutSwapper._transpose_source_intact")
@@ -41,6 +41,18 @@ def view_of(chk, mod, q):
     return cache[key]
 
 
+def _lib_normal(fn):
+    """private copy of a function with equivalent library forms written the reference way (`L.inv_dims_order[e]` as `L.dims_order.index(e)`)"""
+    from .C01 import clone, _InvToIndex, link
+    v = clone(fn)
+    v._parent = getattr(fn, "_parent", None)
+    _InvToIndex().visit(v)
+    ast.fix_missing_locations(v)
+    link(v)
+    v._parent = getattr(fn, "_parent", None)
+    return v
+
+
 def getaxes_convention(mod):
     """(position of the gathered layout among getAxes' arguments, position of the scattered one, position of the gathered-side axis in
     the returned pair, position of the scattered-side axis): the reference is (0, 1, 0, 1).  Read from the definition: the returned
@@ -51,7 +63,7 @@ def getaxes_convention(mod):
         return cache["v"]
     conv = None
     if mod.has("LayoutSwapper.getAxes"):
-        ga = mod.func("LayoutSwapper.getAxes")
+        ga = _lib_normal(mod.func("LayoutSwapper.getAxes"))
         params = [a.arg for a in ga.args.args if a.arg != "self"]
         env = inline_locals(ga)
         rets = [n for n in ast.walk(ga) if isinstance(n, ast.Return) and n.value is not None]
@@ -85,11 +97,55 @@ def manager_final(chk, o, bdesc, n, path, same):
     want = {repr(Sym("mgr", Sym("name", "dest_name"))), repr(Sym("mgr", Sym("step", n - 1)))}
     if same:
         want.add(repr(Sym("mgr", Sym("name", "source_name"))))
+    # ASSUMPTIONS of a VIOLATED verdict: (1) `_current_manager` is a plain attribute that the followed routines assign (so `never
+    # assigned on this path` is a fact about the path, not about where the analysis looked): when it is a property its getter is
+    # evaluated in the exit state; when no assignment of it exists in the class the rule cannot tell where the state is kept;
+    # (2) the path was followed completely; (3) the value is a handler identified by a layout name of the route
+    why = None
+    lost = bool(getattr(o, "lost", False))
+    if cm is None:
+        getter, writers = _manager_attribute(chk.mod(U.LAYOUT), "_current_manager")
+        it = getattr(o, "interp", None)
+        if getter is not None:
+            rets = [r for r in ast.walk(getter) if isinstance(r, ast.Return) and r.value is not None]
+            if len(rets) == 1 and it is not None and len([s_ for s_ in getter.body if not (isinstance(s_, ast.Expr) and isinstance(s_.value, ast.Constant))]) == 1:
+                from ..bufflow import State
+                cm = it.ev(rets[0].value, State(dict(o.env), o.tok), "LayoutSwapper._current_manager")
+            if not isinstance(cm, Sym):
+                cm, why = None, "`_current_manager` is a property whose getter could not be evaluated in the exit state"
+        elif not writers:
+            why = "no assignment of `self._current_manager` was found in LayoutSwapper or its base classes: where the current group is kept was not followed"
     ok = cm is not None and repr(cm) in want
-    chk.ob("M1-current-manager", None, f"LayoutSwapper.transpose[{bdesc}; route length {n}; {path}]", ok,
+    known = isinstance(cm, Sym) and cm.kind == "mgr" and isinstance(cm.arg, Sym) and cm.arg.kind in ("name", "step")
+    decided = ok or (why is None and not lost and (cm is None or known))
+    chk.ob("M1-current-manager", None, f"LayoutSwapper.transpose[{bdesc}; route length {n}; {path}]", ok if decided else None,
            "the current manager is the destination layout's handler at exit" if ok else
-           f"_current_manager is {cm!r} at exit; nProcs/mpiCoords/nDistributedDirections would describe the wrong group",
+           (f"cannot decide: {why}" if why else
+            f"_current_manager is {cm!r} at exit; nProcs/mpiCoords/nDistributedDirections would describe the wrong group" +
+            ("" if decided else " (the path or the value was not followed completely: undecided)")),
            file=U.LAYOUT, func="LayoutSwapper.transpose")
+
+
+def _manager_attribute(mod, attr):
+    """(getter of a property `attr` of LayoutSwapper or a base class, or None; the assignments `self.<attr> = ...` in these classes)"""
+    getter, writers = None, []
+    todo, seen = [CLS], set()
+    while todo:
+        c = todo.pop()
+        if c in seen or not mod.has(c):
+            continue
+        seen.add(c)
+        cdef = mod.cls(c)
+        todo += [src(b).split(".")[-1] for b in cdef.bases]
+        for m in cdef.body:
+            if isinstance(m, ast.FunctionDef):
+                if m.name == attr and any(src(d) in ("property", "functools.cached_property", "cached_property") for d in m.decorator_list):
+                    getter = getter or m
+                writers += [n for n in ast.walk(m) if isinstance(n, (ast.Assign, ast.AugAssign, ast.AnnAssign)) and
+                            any(src(t) == f"self.{attr}" for t in (n.targets if isinstance(n, ast.Assign) else [n.target]))]
+            elif isinstance(m, ast.Assign) and any(src(t) == attr for t in m.targets) and isinstance(m.value, ast.Call) and src(m.value.func) == "property":
+                getter = getter or (mod.func(f"{c}.{src(m.value.args[0])}") if m.value.args and mod.has(f"{c}.{src(m.value.args[0])}") else None)
+    return getter, writers
 
 
 # ------------------------------------------------------------------ getAxes ownership typing
@@ -160,6 +216,8 @@ def axes_ownership(chk, mod, q):
             dep = _current_manager_dependent(mod, n.value)
             if dep:
                 stale[n.targets[0].id] = (n, dep)
+    tied = any(isinstance(x, (ast.Assert, ast.If)) and "_current_manager" in src(x.test) and
+               ("_handlers" in src(x.test) or "layout_source" in src(x.test)) for x in ast.walk(fn))
     if q in STEP:
         sel = []
         for n in ast.walk(fn):
@@ -177,11 +235,15 @@ def axes_ownership(chk, mod, q):
                         kinds.append(None)
                 if all(kinds) :
                     sel.append((n, kinds))
+        # ASSUMPTION of the diagnosis: nothing in the routine establishes that the current manager IS the handler of the layout passed
+        # in (an assert / test that mentions both): then the state read is the argument's own count
+        tied = any(isinstance(x, (ast.Assert, ast.If)) and "_current_manager" in src(x.test) and
+                   ("_handlers" in src(x.test) or "layout_source" in src(x.test)) for x in ast.walk(fn))
         for n, kinds in sel:
             st_ = [k for k in kinds if k[0] == "state"]
             if st_:
                 other = [k for k in kinds if k[0] == "arg"]
-                chk.ob("M2-arm-selection", n, "if " + src(n.test)[:80], False,
+                chk.ob("M2-arm-selection", n, "if " + src(n.test)[:80], None if tied else False,
                        f"the arm is selected by comparing `{st_[0][2]}` = {st_[0][1]} with the count of "
                        f"{'`' + other[0][1] + '`' + chr(39) + 's handler' if other else 'the other side'}: that is the number of distributed directions of the "
                        "swapper's CURRENT manager (set by the previous transpose), not of the handler that owns `layout_source`/`layout_dest`. The "
@@ -247,9 +309,11 @@ def axes_ownership(chk, mod, q):
         if body is None:
             continue
         after = body[[i for i, x in enumerate(body) if x is st][0] + 1:]
+        rebound = set()
         for s2 in after:
+            # ASSUMPTION: the name still holds the axis getAxes returned (a later binding of the same name ends its ownership)
             for n in ast.walk(s2):
-                if not (isinstance(n, ast.Name) and isinstance(n.ctx, ast.Load) and n.id in owners):
+                if not (isinstance(n, ast.Name) and isinstance(n.ctx, ast.Load) and n.id in owners and n.id not in rebound):
                     continue
                 p = parent(n)
                 cont = None
@@ -258,6 +322,16 @@ def axes_ownership(chk, mod, q):
                     if isinstance(c, ast.Attribute) and c.attr == "communicators":
                         # <handler>.communicators[idx]: communicators only exist on the scattered side for the changed direction
                         L = _layout_of_handler_expr(c.value, None, handler_of)
+                        dep = _current_manager_dependent(mod, expand(c.value, {k_: v_ for k_, v_ in inline_locals(fn).items()})) if L is None else None
+                        if dep and not tied:
+                            # ASSUMPTION: nothing in the routine ties the current manager to the handler of the layout passed in (`tied`)
+                            chk.ob("A1-index-ownership", n, src(enclosing(n))[:110], False,
+                                   f"the communicator is taken from {dep} - the group recorded by the PREVIOUS transpose - but it is indexed by `{n.id}`, the axis "
+                                   f"getAxes returned for the handler that owns `{owners[n.id]}`: the caller may pass any valid copy as the source (a transpose "
+                                   "with a spare buffer leaves the source intact; Grid restores a saved copy), and when its group is not the current one the "
+                                   "index addresses another group's communicator list (wrong communicator, or IndexError): the collective runs over the wrong "
+                                   "processes", file=rel, func=q)
+                            continue
                         okc, oks = (L == owners[n.id]), (owners[n.id] == S)
                         chk.ob("A1-index-ownership", n, src(enclosing(n))[:110], (okc and oks) if L is not None else None,
                                f"communicator of `{L}`'s handler indexed by the axis getAxes returned for `{owners[n.id]}`"
@@ -282,6 +356,7 @@ def axes_ownership(chk, mod, q):
                 chk.ob("A1-index-ownership", n, src(enclosing(n))[:110], ok2,
                        f"`{n.id}` (axis of `{owners[n.id]}`) indexes a table of `{cont}`" +
                        ("" if ok2 else " - the index was computed for the other layout"), file=rel, func=q)
+            rebound |= {x.id for x in ast.walk(s2) if isinstance(x, ast.Name) and isinstance(x.ctx, ast.Store) and x.id in owners}
     return n_calls
 
 
@@ -524,6 +599,16 @@ class SymArm:
                 return Tr(self.val(e.args[0]), self.perm(e.args[1]))
             if isinstance(e.func, ast.Attribute) and e.func.attr == "transpose" and len(e.args) == 1:
                 return Tr(self.val(e.func.value), self.perm(e.args[0]))
+            if isinstance(e.func, ast.Attribute) and e.func.attr == "reshape" and (len(e.args) == 2 or (len(e.args) == 1 and isinstance(e.args[0], (ast.Tuple, ast.List))
+                                                                                                       and len(e.args[0].elts) == 2)) and not e.keywords:
+                # a flat cut of m x B elements viewed as m rows of B: row i is the chunk [B i, B (i+1)) (C order)
+                base = self.val(e.func.value)
+                m_e, b_e = e.args if len(e.args) == 2 else e.args[0].elts
+                if isinstance(base, (Buf, Whole)):
+                    m_, b_ = self.sval(m_e), self.sval(b_e)
+                    if isinstance(base, Buf) and base.hi is not None and _eq(sp.expand(base.hi - base.lo), sp.expand(m_ * b_)):
+                        return Pieces(base, b_, m_, drop_last=True)
+                raise Unknown(f"`{src(e)[:50]}`")
             if isinstance(e.func, ast.Attribute) and e.func.attr == "reshape" and len(e.args) == 1:
                 base = self.val(e.func.value)
                 shp = self.val(e.args[0])
@@ -532,6 +617,28 @@ class SymArm:
                         raise Unknown("a shape list entry set in the previous loop iteration")
                     return View(base, shp.copy())
                 raise Unknown(f"`{src(e)[:50]}`")
+            raise Unknown(f"`{src(e)[:50]}`")
+        if isinstance(e, ast.ListComp) and len(e.generators) == 1 and not e.generators[0].ifs and isinstance(e.generators[0].target, ast.Name) \
+                and isinstance(e.elt, ast.Subscript) and isinstance(e.elt.slice, ast.Slice) and e.elt.slice.step is None \
+                and e.elt.slice.lower is not None and e.elt.slice.upper is not None and isinstance(e.generators[0].iter, ast.Call) \
+                and src(e.generators[0].iter.func) == "range" and len(e.generators[0].iter.args) == 1:
+            # [x[j*B:(j+1)*B] for j in range(m)]: the m chunks of B elements
+            g = e.generators[0]
+            base = self.val(e.elt.value)
+            m_ = self.sval(g.iter.args[0])
+            saved = self.env.get(g.target.id)
+            j = self.atom("<j>")
+            self.env[g.target.id] = j
+            try:
+                lo, hi = self.sval(e.elt.slice.lower), self.sval(e.elt.slice.upper)
+            finally:
+                if saved is None:
+                    self.env.pop(g.target.id, None)
+                else:
+                    self.env[g.target.id] = saved
+            B_ = sp.expand(hi - lo)
+            if isinstance(base, (Whole, Buf)) and j not in B_.free_symbols and _eq(lo, j * B_):
+                return Pieces(base, B_, m_, drop_last=True)
             raise Unknown(f"`{src(e)[:50]}`")
         if isinstance(e, ast.ListComp) and len(e.generators) == 1 and not e.generators[0].ifs and isinstance(e.generators[0].target, ast.Name):
             g = e.generators[0]
@@ -550,7 +657,7 @@ class SymArm:
             sl = e.slice
             if isinstance(sl, ast.Slice) and sl.step is None:
                 base = self.val(e.value)
-                if isinstance(base, View) and sl.lower is None and sl.upper is None:
+                if isinstance(base, (View, SubV)) and sl.lower is None and sl.upper is None:
                     return base
                 lo = self.sval(sl.lower) if sl.lower is not None else None
                 hi = self.sval(sl.upper) if sl.upper is not None else None
@@ -794,31 +901,58 @@ class SymArm:
         """`for a, b in zip(T1, T2)` / `for k, (a, b) in enumerate(zip(T1, T2))` / `for a in T` over per-rank tables of a layout: the
         element names stand for `T[i]`; -> trip count (the number of ranks along that axis), or None"""
         from .C01 import loop_index
+        import re
         idx, elems = loop_index(st)
         if not elems:
             return None
         trips = set()
+        piece_trips = []
         bound = {}
+        i = self.atom("i")
         for nm, seq in elems.items():
+            # the received chunks (one per rank), as np.split pieces or as the rows of a (ranks x block) view
+            try:
+                P = self.val(seq)
+            except Unknown:
+                P = None
+            if isinstance(P, Pieces):
+                bound[nm] = self.prefix(P.root, self.sp.expand(P.B * i), self.sp.expand(P.B * i + P.B))
+                piece_trips.append(P.m if P.drop_last else P.m + 1)
+                continue
             try:
                 t = self.ctext(seq).replace(" ", "")
             except Unknown:
                 return None
-            import re
             m_ = re.fullmatch(r"(layout_source|layout_dest)\.(mpi_starts|mpi_lengths)\((\w+)\)", t)
-            if not m_:
+            # the running total of the block lengths: entry i is the END of block i = start_i + length_i (the starts table is the
+            # exclusive prefix sum of the lengths table: C02 P2-one-table)
+            c_ = re.fullmatch(r"(?:np|numpy)\.cumsum\((layout_source|layout_dest)\.mpi_lengths\((\w+)\)\)", t)
+            if m_:
+                lay, ax = m_.group(1), m_.group(3)
+                bound[nm] = self.atom(f"{t}[i]")
+            elif c_:
+                lay, ax = c_.group(1), c_.group(2)
+                bound[nm] = self.sp.expand(self.atom(f"{lay}.mpi_starts({ax})[i]") + self.atom(f"{lay}.mpi_lengths({ax})[i]"))
+            else:
                 return None
-            lay, ax = m_.group(1), m_.group(3)
             trips.add((lay, ax))
-            bound[nm] = self.atom(f"{t}[i]")
-        if len(trips) != 1:
+        if len(trips) > 1 or (not trips and not piece_trips):
             return None
-        lay, ax = next(iter(trips))
+        trip = None
+        if trips:
+            lay, ax = next(iter(trips))
+            # one entry per rank of the communicator of that axis (how the tables are built: C02 P2-table-shape / P2-one-table)
+            trip = self.atom(f"self._managers[self._handlers[{lay}.name]].communicators[{ax}].Get_size()")
+        for pt in piece_trips:
+            if trip is None:
+                trip = pt
+            elif not _eq(trip, pt):
+                # zip stops at the shorter sequence; which one that is was not established
+                return None
         self.env.update(bound)
         if idx is not None:
-            self.env[idx] = self.atom("i")
-        # one entry per rank of the communicator of that axis (how the tables are built: C02 P2-table-shape / P2-one-table)
-        return self.atom(f"self._managers[self._handlers[{lay}.name]].communicators[{ax}].Get_size()")
+            self.env[idx] = i
+        return trip
 
     def induction_variables(self, loop, tgt_names):
         """{x: (value before the loop, step, the statement that advances it)} for every local that is a number before the loop and whose
@@ -1043,11 +1177,19 @@ def gather_geometry(chk, mod, q, recv_name):
         return
     c = ag[0]
     okr = True if c.func.attr == "Allgather" else False if c.func.attr in ("Gather", "gather") else None
+    if okr is False and any(isinstance(x, ast.Call) and isinstance(x.func, ast.Attribute) and x.func.attr in ("Bcast", "bcast") for x in ast.walk(fn)):
+        okr = None          # ASSUMPTION of the diagnosis: nothing redistributes the gathered data afterwards
     chk.ob("R1-symmetric-replication", c, src(c)[:100], okr,
            "the gather is an Allgather: every rank of the communicator receives all blocks (replicas identical)"
            if okr else f"`{c.func.attr}` delivers the blocks to the root rank only: the other replicas keep stale data" if okr is False
            else f"collective `{c.func.attr}` not modelled", file=rel, func=q)
     out = "source" if recv_name == "dest" else "dest"
+    if c.func.attr not in ("Allgather", "Gather"):
+        # ASSUMPTION of every geometry diagnosis: equal counts from every rank (the blocks lie at a uniform padded stride in the receive
+        # buffer); a collective with per-rank counts has another layout of the receive buffer
+        chk.ob(rule, c, f"gather arm of {q.split('.')[-1]}", None, f"the geometry of the collective `{c.func.attr}` (per-rank counts / pickled objects) is not modelled",
+               file=rel, func=q)
+        return
     arms = _read_arm_paths(fn, c)
     if not arms or any(len(A.gathers) != 1 for A in arms):
         chk.ob(rule, c, f"gather arm of {q.split('.')[-1]}", None, "the arm containing the gather could not be isolated", file=rel, func=q)
@@ -1086,6 +1228,14 @@ def _rank_local(text):
     return bool(re.search(r"layout_source\.size|layout_source\.shape\[|prod\(shape\(layout_source\)\)|layout_source\.ends|layout_source\.starts", t))
 
 
+def _safe_ctext(A, t):
+    try:
+        A.ctext(t)
+        return True
+    except Exception:
+        return False
+
+
 def _judge_gather_path(A, recv_name, out):
     """(diagnoses, things not followed) of one way through the gather arm"""
     import sympy
@@ -1112,6 +1262,8 @@ def _judge_gather_path(A, recv_name, out):
         und.append("communicator of the gather")
     elif comm.replace(" ", "") != comm_t.replace(" ", ""):
         if comm.replace(" ", "") == comm_t.replace("idx_s", "idx_d").replace(" ", "") or "layout_dest.name" in comm:
+            # ASSUMPTION: the communicator text, with the arm's locals written out, is the DESTINATION handler's communicators[...] or is indexed by
+            # idx_d (handlers are looked up as self._managers[self._handlers[<layout>.name]])
             bad.append(f"the gather runs on `{comm}`: the blocks are spread over the communicator of the SOURCE handler's scattered axis (idx_s)")
         else:
             und.append(f"communicator `{comm}`")
@@ -1121,6 +1273,9 @@ def _judge_gather_path(A, recv_name, out):
             und.append(f"{role} buffer")
             continue
         b, extra, node = specs[k]
+        if extra is not None and len(extra) >= 2 and extra[-1] == "MPI.DOUBLE" and any(w in " ".join(extra) for w in ("itemsize", "nbytes", "dtype", "iscomplex")):
+            und.append(f"explicit count in `{src(node)[:60]}` (it depends on the element type: not followed)")
+            continue
         if extra is not None and len(extra) >= 2 and extra[-1] == "MPI.DOUBLE":
             bad.append(f"`{src(node)}` passes an explicit count with MPI.DOUBLE: the count is the number of array ELEMENTS, but a complex "
                        "buffer holds two doubles per element, so only half of each block is exchanged (the two-element form lets mpi4py "
@@ -1133,6 +1288,8 @@ def _judge_gather_path(A, recv_name, out):
             continue
         if b.root != root:
             if b.root in ("source", "dest", "buf"):
+                # ASSUMPTION: the buffer was followed back to a parameter array; with a spare buffer the receive/assemble roles of dest and buf may be
+                # exchanged (handled at the top)
                 bad.append(f"the {role} buffer is a part of `{b.root}`, the arm's {role} buffer is `{root}`")
             else:
                 und.append(f"{role} buffer root `{b.root}`")
@@ -1141,14 +1298,20 @@ def _judge_gather_path(A, recv_name, out):
             t = str(b.hi)
             if b.hi is not None and _eq(b.lo, 0) and ("prod(shape(layout_source)" in t or "layout_source.size" in t or "layout_dest.size" in t
                                                       or "mpi_lengths" in t) and "max_block_shape" not in t:
+                # ASSUMPTION: uniform-count collective (checked in gather_geometry); the count was resolved to an expression over this rank's own
+                # block (no max_block_shape)
                 bad.append(f"the {role} buffer holds `{b.hi}` elements: Allgather needs the same count from every rank, the block padded to "
                            f"max_block_shape along the scattered axis ({want_hi}); with unpadded counts the ranks disagree on the layout of the receive buffer")
             else:
                 und.append(f"{role} count `{b.hi}` (expected {want_hi})")
     # ---- shortcuts decided by this rank's own block
+    def own_vs_padded(x):
+        # this rank's own extent (`L.shape[k]`, not `L.max_block_shape[k]`) compared with the padded one; a test on the per-rank table
+        # mpi_lengths is the same on every rank and is not this defect
+        t = src(x).replace("max_block_shape", "")
+        return isinstance(x, ast.Compare) and "max_block_shape" in src(x) and ".shape[" in t.replace(" ", "")
     for test, pol in getattr(A, "path", []):
-        cmp_ = [x for x in ast.walk(test) if isinstance(x, ast.Compare) and "max_block_shape" in src(x) and
-                (".shape" in src(x) or "mpi_lengths" in src(x))]
+        cmp_ = [x for x in ast.walk(test) if own_vs_padded(x)]
         if cmp_:
             bad.append(f"`{src(cmp_[0])}` compares this rank's own block length with the padded length to decide how the gathered buffer is "
                        "read: on an uneven distribution the ranks holding a full-size block take the 'no padding' path although the shorter "
@@ -1165,8 +1328,7 @@ def _judge_gather_path(A, recv_name, out):
                            "block although the shorter blocks of the other ranks of the communicator arrive padded; those ranks read the padding "
                            "as data (misaligned buffer) while the others take the per-block path: the replicas differ")
     for cnd in A.conds:
-        cmp_ = [x for x in ast.walk(cnd.test) if isinstance(x, ast.Compare) and "max_block_shape" in src(x) and
-                (".shape" in src(x) or "mpi_lengths" in src(x))]
+        cmp_ = [x for x in ast.walk(cnd.test) if own_vs_padded(x)]
         if cmp_:
             bad.append(f"`{src(cmp_[0])}` compares this rank's own block length with the padded length to decide how the gathered buffer is "
                        "read: on an uneven distribution the ranks holding a full-size block take the 'no padding' path although the shorter "
@@ -1182,7 +1344,11 @@ def _judge_gather_path(A, recv_name, out):
             pos = sorted(shp.over)
             send = specs[0][0] if specs else None
             plain_send = isinstance(send, Buf) and send.root == "source" and _eq(send.lo, 0)
-            if shp.layout == "layout_source" and pos == ["idx_s"] and plain_send:
+            # (a path that tests the POSITION idx_s itself - `idx_s == 0` - may have established that the gathered axis is the leading one)
+            tests_axis = any((A.ctext(side).strip() == "idx_s") if _safe_ctext(A, side) else False
+                             for t, _ in getattr(A, "path", []) for c_ in ast.walk(t) if isinstance(c_, ast.Compare)
+                             for side in [c_.left] + list(c_.comparators))
+            if shp.layout == "layout_source" and pos == ["idx_s"] and plain_send and not tests_axis:
                 bad.append(f"`{src(st_)[:70]}` reads all received blocks through one view of shape `{shp}`: the receive buffer holds the blocks of "
                            "the ranks one after the other (block-major), which is the field concatenated ALONG axis idx_s of the source block "
                            "only if idx_s is the first (slowest) axis of that block; the swapper sends the blocks as they lie in memory, without "
@@ -1197,6 +1363,8 @@ def _judge_gather_path(A, recv_name, out):
         st, tv, rv, (trip, loop_node) = loop_stores[0]
         if not _eq(trip, m):
             if _eq(trip, m + 1):
+                # ASSUMPTION: the trip count was derived from np.split(x, B*arange(1, m+1)) (m+1 pieces) / range(...) and m is the size of the gather
+                # communicator
                 bad.append("the unpack loop also visits the piece after the last rank's block (np.split returns communicator-size + 1 pieces): "
                            "it is not a block of any rank")
             elif _eq(trip, m - 1):
@@ -1214,6 +1382,8 @@ def _judge_gather_path(A, recv_name, out):
             sl = tv.slices
             if sl.layout != "layout_dest" or set(sl.over) != {"idx_d"} or not isinstance(sl.over.get("idx_d"), SliceV):
                 if sl.layout == "layout_dest" and set(sl.over) == {"idx_s"}:
+                    # ASSUMPTION: idx_s / idx_d are the two results of getAxes in the reference convention (the view renames them by the definition's
+                    # convention)
                     bad.append("the block of rank i is placed along position idx_s of the destination view: idx_s is the process axis of the SOURCE "
                                "handler, the gathered dimension sits at position idx_d of the destination")
                 else:
@@ -1223,6 +1393,7 @@ def _judge_gather_path(A, recv_name, out):
                 if _eq(sv.lo, st_i) and _eq(sv.hi, st_i + len_i):
                     pass
                 elif "layout_dest.mpi_" in str(sv.lo) + str(sv.hi):
+                    # ASSUMPTION: the placement range was resolved to the destination layout's per-rank tables
                     bad.append(f"the block of rank i is placed at `{sv}`: blocks were cut by the source layout's partition, not the destination's "
                                "(the destination is not distributed along this dimension)")
                 else:
@@ -1240,7 +1411,12 @@ def _judge_gather_path(A, recv_name, out):
             if isinstance(x, View) and isinstance(x.buf, Buf):
                 shp = x.shape
                 padded_view = shp.layout == "layout_source" and set(shp.over) == {"idx_s"} and _eq(shp.over["idx_s"], at("layout_source.max_block_shape[idx_s]"))
-                if padded_view:
+                packed_before = [s_ for s_ in A.stores if s_[3] is None and getattr(s_[0], "lineno", 0) < getattr(call, "lineno", 0)]
+                if padded_view and packed_before:
+                    und.append(f"the chunk is viewed with the padded shape `{shp}` and the sender stores into an array before the gather "
+                               f"(`{src(packed_before[0][0])[:50]}`): whether it packs its block into that shape was not followed")
+                elif padded_view:
+                    # ASSUMPTION: the sender sends its block as it lies in memory (no store before the gather, send buffer = source[0:B])
                     bad.append(f"the received chunk of rank i is viewed with the padded block shape `{shp}`; the sender's "
                                "block is contiguous in its true shape, so for uneven blocks elements are mis-assigned unless the gathered "
                                "axis is the leading one")
@@ -1259,6 +1435,8 @@ def _judge_gather_path(A, recv_name, out):
                         if _eq(amount, B):
                             b = Buf(b.root, b.lo.subs(rt, B * at("i")), b.hi.subs(rt, B * at("i")) if b.hi is not None else None)
                         elif _eq(amount, n_i):
+                            # ASSUMPTION: the offset variable is advanced exactly once per iteration by the resolved amount (induction_variables), the
+                            # receive buffer holds uniform padded slots (Allgather)
                             bad.append(f"the chunk of rank i is read at a running offset that is advanced by the TRUE size of each block "
                                        f"(`{amount}`): every rank's block occupies a slot of the padded size {B} in the receive buffer, so for uneven "
                                        "blocks the chunks after the first short block are read from the wrong offsets")
@@ -1267,6 +1445,8 @@ def _judge_gather_path(A, recv_name, out):
                     (bad if b.root in ("source", "dest", "buf") else und).append(f"the chunks are read from `{b.root}` but were received in `{recv_name}`")
                 elif not _eq(b.lo, B * at("i")):
                     if "mpi_starts" in str(b.lo) or "mpi_lengths" in str(b.lo) or _eq(b.lo, n_i * at("i")):
+                        # ASSUMPTION: the offset was resolved to the compact partition (starts table / i x true size); uniform padded slots
+                        # (Allgather)
                         bad.append(f"the chunk of rank i is read at offset `{b.lo}`: every rank's block occupies a slot of the padded size {B} in the "
                                    "receive buffer, so for uneven blocks the chunks are read from the wrong offsets")
                     else:
@@ -1327,6 +1507,7 @@ def _judge_scatter_path(A):
     else:
         st, tv, rv, _ = stores[0]
         if isinstance(tv, View) and isinstance(tv.buf, Buf) and tv.buf.root in ("source", "buf"):
+            # ASSUMPTION: exactly one array store on this way through the scatter arm, its target followed back to a parameter array
             bad.append(f"the scatter arm writes its result into `{tv.buf.root}`: the local part of the destination layout must be stored in `dest`")
         elif not (isinstance(tv, View) and isinstance(tv.buf, Buf) and tv.buf.root == "dest" and _eq(tv.buf.lo, 0) and tv.buf.hi is not None
                   and _eq(tv.buf.hi, at("layout_dest.size")) and tv.shape.key() == SL("layout_dest", "shape").key()):
@@ -1349,9 +1530,15 @@ def _judge_scatter_path(A):
             else:
                 sv = sl.over["idx_s"]
                 txt = str(sv.lo) + " " + str(sv.hi)
+                own_lo, own_hi, own_len = at("layout_dest.starts[idx_d]"), at("layout_dest.ends[idx_d]"), at("layout_dest.shape[idx_d]")
                 if _eq(sv.lo, st_r) and _eq(sv.hi, st_r + len_r):
                     pass
+                elif _eq(sv.lo, own_lo) and (_eq(sv.hi, own_hi) or _eq(sv.hi, own_lo + own_len)):
+                    # this rank's own block of the destination layout: Layout.starts/ends[k] are the entries of the per-rank tables at
+                    # this rank's coordinate (C02 P2-one-table), which is its rank on the handler's communicator k (A2-coords-follow-communicators)
+                    pass
                 elif "layout_source.mpi_starts" in txt or "layout_source.mpi_lengths" in txt:
+                    # ASSUMPTION: the slice bounds were resolved to per-rank tables of layout_source
                     bad.append("the scatter slice is taken from the source layout's partition table: the local block is defined by the destination's")
                 elif "layout_dest.mpi_starts(idx_d)[" in txt and ".Get_rank()" in txt and comm_t.replace(" ", "") not in txt:
                     bad.append(f"the slice `{sv}` is taken at the rank of another communicator than the destination handler's communicators[idx_d]: "
@@ -1366,10 +1553,21 @@ def _judge_scatter_path(A):
 # ------------------------------------------------------------------ buffer sizes
 def handler_buffer(chk, mod):
     """LayoutHandler.__init__: the block of every connected pair starts from that pair's own local shape"""
-    from .C01 import bufsize_rules
+    from .C01 import bufsize_rules, class_methods
     rel, q = mod.rel, "LayoutHandler.__init__"
-    fn = mod.func(q)
+    init = mod.func(q)
     rule = "G4-bufsize-handler-block"
+    # the routine that sizes the exchange block, found by ROLE: it asks `_get_swap_axes` for the axis triple of a pair and overwrites
+    # entries of a shape list with padded extents (the constructor itself, a helper method it delegates to, a nested function)
+    cands = []
+    for m in class_methods(mod, "LayoutHandler").values():
+        for f in [x for x in ast.walk(m) if isinstance(x, ast.FunctionDef)]:
+            own = [n for n in ast.walk(f) if not any(n is y for g in ast.walk(f) if isinstance(g, ast.FunctionDef) and g is not f for y in ast.walk(g))]
+            if any(isinstance(n, ast.Call) and src(n.func) == "self._get_swap_axes" for n in own) and \
+                    any(isinstance(n, ast.Assign) and isinstance(n.targets[0], ast.Subscript) and isinstance(n.targets[0].value, ast.Name)
+                        and "max_block_shape" in src(n.value) for n in own):
+                cands.append(f)
+    fn = init if any(f is init for f in cands) or len(cands) != 1 else cands[0]
 
     def loops(n):
         out = []
@@ -1390,10 +1588,14 @@ def handler_buffer(chk, mod):
                 and isinstance(inits[0].value.args[0], ast.Attribute) and inits[0].value.args[0].attr == "shape":
             def same(a, b):
                 return len(a) == len(b) and all(x is y for x, y in zip(a, b))
-            # the list is created in the very loop iteration (over the connected pairs, however they are enumerated) that pads it
-            if pair_loops and same(loops(inits[0]), pair_loops) and all(same(loops(p_), pair_loops) for p_ in pads):
+            # the list is created in the very loop iteration (over the connected pairs, however they are enumerated) that pads it - or,
+            # in a helper that handles ONE pair per call, in the same call
+            per_call = fn is not init and not isinstance(parent(fn), ast.FunctionDef) and not pair_loops
+            if (pair_loops or per_call) and same(loops(inits[0]), pair_loops) and all(same(loops(p_), pair_loops) for p_ in pads):
                 ok = True
             elif len(loops(inits[0])) < len(pair_loops) and all(any(x is y for y in pair_loops) for x in loops(inits[0])):
+                # ASSUMPTION: the pads overwrite entries of the ONE list object created outside the loop (the list is not copied
+                # again per pair before it is padded: `inits` is its only binding, checked above)
                 bad = (f"`{src(inits[0])}` (line {inits[0].lineno}) is created outside the loop over connected layouts but its entries are "
                        "overwritten for every pair: a layout connected to two others through different axes keeps the padded extent "
                        "of the previous pair, and bufferSize can come out smaller than a block the transposes move")
@@ -1429,8 +1631,11 @@ def init_buffer(chk, mod):
         if re.fullmatch(r"max\(\[?(\w+)\.bufferSizefor\1inself\._managers\]?\)", t):
             ok1 = True
         elif re.fullmatch(r"min\(\[?(\w+)\.bufferSizefor\1inself\._managers\]?\)", t):
+            # ASSUMPTION: the first assignment is literally min(<m.bufferSize for m in self._managers>)
             bad1 = "the swapper's buffer is the SMALLEST handler buffer: the transposes inside the other handlers need more"
-        elif re.fullmatch(r"self\._managers\[[^\]]+\]\.bufferSize", t):
+        elif re.fullmatch(r"self\._managers\[[^\]]+\]\.bufferSize", t) and \
+                not any(in_loop(n) and "bufferSize" in src(n.value) for n in stores):
+            # ASSUMPTION: no later update raises the size to the other handlers' sizes
             bad1 = (f"the swapper's buffer starts from one handler's size (`{src(first[0].value)}`): the transposes inside the other handlers may need more")
     chk.pat("G4-bufsize-handlers", first[0] if first else fn, "self._buffer_size = max(buffSize)", ok1, "swapper buffer covers the largest handler buffer",
             bad1, file=rel, func=q)
@@ -1472,6 +1677,7 @@ def _gather_candidate(vx, sf, idx_of, handler_of, bad, und, counts):
             return
         k = keys[0]
         if idx_of[k] != lay:
+            # ASSUMPTION: each index variable is the result of ONE getAxes call (idx_of; an index standing for two layouts is undecided above)
             bad.append(f"the block of `{lay}` is padded at position `{k}`, an axis of `{idx_of[k]}`")
             return
         if block.over[k].replace(" ", "") != f"{lay}.max_block_shape[{k}]":
@@ -1494,6 +1700,59 @@ def _gather_candidate(vx, sf, idx_of, handler_of, bad, und, counts):
                        f"`{hl}` along `{comm.slice.id}`: the gather receives one block per rank of the scattered layout's communicator")
         else:
             counts[0] += 1
+
+
+def _accumulates(fn, v):
+    """does the value read a local that is defined from itself (`best = max(best, x)`) or under a test on itself (`if x > best: best = x`)?"""
+    for nm in {x.id for x in ast.walk(v) if isinstance(x, ast.Name)}:
+        for d in [n for n in ast.walk(fn) if isinstance(n, ast.Assign) and len(n.targets) == 1 and isinstance(n.targets[0], ast.Name) and n.targets[0].id == nm]:
+            if any(isinstance(x, ast.Name) and x.id == nm for x in ast.walk(d.value)) or \
+                    any(any(isinstance(x, ast.Name) and x.id == nm for x in ast.walk(t)) for t, _, _ in guards_of(d)):
+                return True
+        if any(isinstance(n, ast.AugAssign) and isinstance(n.target, ast.Name) and n.target.id == nm for n in ast.walk(fn)):
+            return True
+    return False
+
+
+def _arm_variants(fn, vx, at, keep):
+    """a candidate that reads locals bound once in EACH arm of an `if` that precedes the update (`if c: a, b = x1, y1 else: a, b = x2, y2`):
+    one candidate per arm, every such local replaced by that arm's definition (the arms are alternatives: their definitions are never
+    mixed).  [vx] when there is no such `if`"""
+    from .C01 import resolve_at, reaching_def, _Subst
+    free = {n.id for n in ast.walk(vx) if isinstance(n, ast.Name) and isinstance(n.ctx, ast.Load) and n.id not in keep
+            and reaching_def(fn, n.id, at) is None}
+    if not free:
+        return [vx]
+    cur = at
+    blk = None
+    par = parent(cur)
+    for f in ("body", "orelse", "finalbody"):
+        b = getattr(par, f, None)
+        if isinstance(b, list) and any(x is cur for x in b):
+            blk = b
+    if blk is None:
+        return [vx]
+    idx = [i for i, x in enumerate(blk) if x is cur][0]
+    for prev in reversed(blk[:idx]):
+        if not isinstance(prev, ast.If) or not prev.orelse:
+            continue
+
+        def top_defs(arm):
+            out = {}
+            for st in arm:
+                if isinstance(st, ast.Assign) and len(st.targets) == 1 and isinstance(st.targets[0], ast.Name):
+                    out[st.targets[0].id] = None if st.targets[0].id in out else st
+            return out
+        da, db = top_defs(prev.body), top_defs(prev.orelse)
+        both = {x for x in free if da.get(x) is not None and db.get(x) is not None}
+        if not both:
+            continue
+        out = []
+        for d_ in (da, db):
+            mapping = {x: resolve_at(fn, d_[x].value, d_[x], keep=keep) for x in both}
+            out.append(ast.fix_missing_locations(_Subst(mapping).visit(ast.parse(ast.unparse(vx), mode="eval").body)))
+        return out
+    return [vx]
 
 
 def _gather_bufsize(chk, mod, fn, sinks):
@@ -1535,8 +1794,11 @@ def _gather_bufsize(chk, mod, fn, sinks):
                     mono = True
         if not mono:
             if isinstance(s_.value, ast.Call) and src(s_.value.func) == "min":
+                # ASSUMPTION: the update is literally min(...)
                 bad.append(f"`{src(s_)[:60]}` keeps the smaller value")
-            elif "self._buffer_size" not in src(s_.value) and not any("self._buffer_size" in src(t) for t, _, _ in guards_of(s_)):
+            elif "self._buffer_size" not in src(s_.value) and not any("self._buffer_size" in src(t) for t, _, _ in guards_of(s_)) and \
+                    not _accumulates(fn, s_.value):
+                # ASSUMPTION: the stored value is this pair's own size, not a running maximum kept in a local
                 bad.append(f"`{src(s_)[:60]}` overwrites the advertised size: the handlers' buffers and earlier pairs are forgotten")
             else:
                 und.append(f"update `{src(s_)[:60]}`")
@@ -1549,6 +1811,7 @@ def _gather_bufsize(chk, mod, fn, sinks):
                   and n.targets[0].id == v.id]
             if ds:
                 cands = [resolve_at(fn, d.value, d, keep=keepn) for d in ds]
+        cands = [y for vx in cands for y in _arm_variants(fn, vx, s_, keepn)]
         for vx in cands:
             _gather_candidate(vx, sf, idx_of, handler_of, bad, und, counts)
     full = counts[0]
@@ -1566,14 +1829,20 @@ def comm_identity_diagnosis(fn):
     for n in ast.walk(fn):
         if isinstance(n, ast.Assign) and isinstance(n.targets[0], ast.Name) and isinstance(n.value, (ast.ListComp, ast.Call)):
             v = n.value
+            # ASSUMPTION: the list of derived quantities is what the communicators are MATCHED by: it is searched (`in`, `.index`, ==)
+            used_to_match = any((isinstance(x, ast.Compare) and any(isinstance(y, ast.Name) and y.id == n.targets[0].id for y in ast.walk(x))) or
+                                (isinstance(x, ast.Call) and isinstance(x.func, ast.Attribute) and x.func.attr in ("index", "count") and
+                                 isinstance(x.func.value, ast.Name) and x.func.value.id == n.targets[0].id) for x in ast.walk(fn))
             if isinstance(v, ast.ListComp) and "communicators" in src(v.generators[0].iter) and isinstance(v.elt, ast.Call) \
-                    and isinstance(v.elt.func, ast.Attribute) and v.elt.func.attr in ("Get_size", "Get_rank", "Get_dim"):
+                    and isinstance(v.elt.func, ast.Attribute) and v.elt.func.attr in ("Get_size", "Get_rank", "Get_dim") and used_to_match:
                 return (f"`{src(n)}`: the communicators of the two handlers are matched by `{v.elt.func.attr}()`: two different process "
                         "axes with the same extent (square process grids) are taken for the same communicator, so the wrong axis is "
                         "gathered/scattered (or the layouts are declared unconnected)")
     for n in ast.walk(fn):
+        # (a size compared with a literal number - `comm.Get_size() == 1` - tests ONE communicator, it does not match two)
         if isinstance(n, ast.Compare) and any(isinstance(x, ast.Call) and isinstance(x.func, ast.Attribute) and x.func.attr == "Get_size"
-                                              for x in [n.left] + n.comparators) and isinstance(n.ops[0], (ast.In, ast.Eq)):
+                                              for x in [n.left] + n.comparators) and isinstance(n.ops[0], (ast.In, ast.Eq)) \
+                and not any(isinstance(x, ast.Constant) for x in [n.left] + n.comparators):
             return (f"`{src(n)}` matches communicators by size: process axes of equal extent are confused")
     return None
 
@@ -1629,13 +1898,15 @@ def run(chk):
     mod = chk.mod(U.LAYOUT)
     chk.in_file(U.LAYOUT)
     prog = Program(chk.repo, [U.LAYOUT])
-    flow_check(chk, prog, U.LAYOUT, CLS, extra_final=manager_final)
+    safe_flow_check(chk, prog, U.LAYOUT, CLS, extra_final=manager_final)
     ncalls = 0
     for q in STEP + ("LayoutSwapper.__init__",):
         ncalls += axes_ownership(chk, mod, q)
-    if ncalls < 6:
+    if ncalls < 4:
+        # (one per scatter arm and one per gather arm of the two single-step routines; the constructor's sites may be consolidated)
         chk.ob("A1-getaxes-role-order", mod.cls(CLS), "getAxes call sites", None,
-               f"only {ncalls} getAxes call sites found (6 confirmed by reading): the scatter/gather arms were restructured", file=U.LAYOUT, func=CLS)
+               f"only {ncalls} getAxes call sites found (at least 4 expected: scatter and gather arm of each single-step routine): the arms were restructured",
+               file=U.LAYOUT, func=CLS)
     gather_geometry(chk, mod, "LayoutSwapper._transpose", "dest")
     gather_geometry(chk, mod, "LayoutSwapper._transpose_source_intact", "buf")
     scatter_geometry(chk, mod, "LayoutSwapper._transpose")
@@ -1649,10 +1920,8 @@ def run(chk):
            swapper_permutations, chk, views, file=U.LAYOUT, func=STEP[0])
     # the cached route map is only read by the transposes
     from .. import lints
-    for q in (f"{CLS}.transpose", f"{CLS}._transposeRedirect", f"{CLS}._transposeRedirect_source_intact"):
-        if not mod.has(q):
-            chk.ob("G2-no-shared-mutation", mod.cls(CLS), f"{q} vs the cached route map", None, f"{q} does not exist any more", file=U.LAYOUT, func=q)
-            continue
+    from .C01 import route_readers
+    for q in route_readers(mod, CLS):
         f_ = mod.func(q)
         muts = lints.shared_state_mutations(f_, lambda s_: s_.startswith("self._route_map") or s_.startswith("self._layouts") or s_.startswith("self._handlers"))
         chk.ob("G2-no-shared-mutation", f_, f"{q} vs the cached route map", not muts,
@@ -1670,8 +1939,8 @@ def run(chk):
                 d, file=U.LAYOUT, func=q)
     chk.floor("D2-result-in-dest", 14)
     chk.floor("M1-current-manager", 14)
-    chk.floor("A1-index-ownership", 16)
-    chk.floor("A1-getaxes-role-order", 6)
+    chk.floor("A1-index-ownership", 8)
+    chk.floor("A1-getaxes-role-order", 4)
     chk.floor("P1-", 4)
 
 
@@ -1703,6 +1972,8 @@ def _seq_desc(fn, e, at, depth=4):
         return _seq_desc(fn, e.args[0], at, depth - 1)
     if isinstance(e, ast.Call) and isinstance(e.func, ast.Attribute) and e.func.attr == "copy" and not e.args:
         return _seq_desc(fn, e.func.value, at, depth - 1)
+    if isinstance(e, ast.Call) and isinstance(e.func, ast.Attribute) and e.func.attr == "Get_coords":
+        return ("whole", src(e))          # the coordinate list of the topology, written in place
     if isinstance(e, ast.Subscript) and isinstance(e.slice, ast.Slice) and isinstance(e.value, ast.Name):
         inner = _seq_desc(fn, e.value, at, depth - 1)
         if inner is not None and inner[0] == "whole":
@@ -1730,6 +2001,10 @@ def _seq_desc(fn, e, at, depth=4):
         if not empty:
             if isinstance(v, ast.Call) and not (src(v.func) in ("list", "tuple") or (isinstance(v.func, ast.Attribute) and v.func.attr == "copy")):
                 return ("whole", e.id)          # produced by a call (Get_coords, ...): a base list
+            if isinstance(v, (ast.ListComp, ast.GeneratorExp)) and isinstance(v.elt, ast.Call) and len(v.generators) == 1 and not v.generators[0].ifs:
+                # one freshly produced item per iteration (topology.Sub(<mask>) for every mask): a base list, exactly like the loop that
+                # appends one such item per iteration (which direction each mask keeps is not this rule's subject)
+                return ("whole", e.id)
             return _seq_desc(fn, v, d, depth - 1)
         adds = [c for c in ast.walk(fn) if isinstance(c, ast.Call) and isinstance(c.func, ast.Attribute) and src(c.func.value) == e.id
                 and c.func.attr in ("append", "extend", "insert") and d.lineno < c.lineno <= getattr(at, "lineno", 10 ** 9)]
@@ -1750,6 +2025,27 @@ def _seq_desc(fn, e, at, depth=4):
     return None
 
 
+def _leading_selection(fn, d):
+    """a selection `base[k] for the k of a loop over range(n)` (k the loop's own counter): -> text of n, else None"""
+    if d[0] != "sel":
+        return None
+    key = d[2]
+    if key[0] == "loop":
+        lp = [x for x in ast.walk(fn) if isinstance(x, ast.For) and id(x) == key[1]]
+        if lp and isinstance(lp[0].iter, ast.Call) and src(lp[0].iter.func) == "range" and len(lp[0].iter.args) == 1 \
+                and isinstance(lp[0].target, ast.Name) and lp[0].target.id == d[3].strip():
+            return src(lp[0].iter.args[0]).replace(" ", "")
+        return None
+    if key[0] == "seq":
+        try:
+            it = ast.parse(key[1], mode="eval").body
+        except SyntaxError:
+            return None
+        if isinstance(it, ast.Call) and src(it.func) == "range" and len(it.args) == 1:
+            return src(it.args[0]).replace(" ", "")
+    return None
+
+
 def _distinct_names(fn, a, b, at):
     """two index expressions that are different plain local names, neither defined as the other (so they can denote different axes)"""
     from .C01 import reaching_def
@@ -1766,6 +2062,8 @@ def _distinct_names(fn, a, b, at):
 def _base_role(fn, name):
     """'comm' for a list of the sub-communicators of a cartesian topology (its elements come from `.Sub(...)`), 'coord' for the
     coordinates of this process on that topology (`.Get_coords(...)`), else None"""
+    if ".Get_coords(" in name:
+        return "coord"
     for n in ast.walk(fn):
         if isinstance(n, ast.Assign) and len(n.targets) == 1 and isinstance(n.targets[0], ast.Name) and n.targets[0].id == name:
             if any(isinstance(c, ast.Call) and isinstance(c.func, ast.Attribute) and c.func.attr == "Get_coords" for c in ast.walk(n.value)):
@@ -1826,12 +2124,24 @@ def coords_follow_comms(chk, mod):
                         if any(isinstance(n, ast.Name) and n.id in names and isinstance(n.ctx, ast.Store) for x in between for n in ast.walk(x)):
                             ok, why = None, f"`{dc[3]}` is rebound between the two appends"
                 elif dc[2][0] == dr[2][0] == "loop" and dc[2][1] == dr[2][1] and _distinct_names(fn, dc[3], dr[3], dc[4]):
+                    # ASSUMPTION (checked by _distinct_names): the two index names are different locals, neither defined from the other
                     bad = (f"in one iteration the communicator is taken at `{dc[1]}[{dc[3]}]` but the coordinate at `{dr[1]}[{dr[3]}]`: the handler "
                            "distributes axis k over the communicator comms[k] but takes this process's block from the coordinate on another "
                            "direction - blocks are not owned in the rank order of the communicator the exchanges run on")
                 else:
                     why = f"the communicators are selected by `{dc[3]}`, the coordinates by `{dr[3]}`: whether these are the same axes was not established"
+            elif dc[0] == "sel" and dr[0] in ("prefix", "whole") and _leading_selection(fn, dc) is not None:
+                # the `selected` communicators are comms[0], comms[1], ... comms[n-1] (the index IS the counter of a loop over range(n)):
+                # the leading entries, like the coordinates
+                n_ = _leading_selection(fn, dc)
+                ok = True if (dr[0] == "prefix" and dr[2].replace(" ", "") in (f":{n_}", f"0:{n_}")) else None
+                why = "" if ok else f"the communicators are the leading `{n_}` entries, the coordinates `{dr[1]}[{dr[2] if dr[0] == 'prefix' else ':'}]`: not compared"
+            elif dr[0] == "sel" and dc[0] in ("prefix", "whole") and _leading_selection(fn, dr) is not None:
+                n_ = _leading_selection(fn, dr)
+                ok = True if (dc[0] == "prefix" and dc[2].replace(" ", "") in (f":{n_}", f"0:{n_}")) else None
+                why = "" if ok else f"the coordinates are the leading `{n_}` entries, the communicators `{dc[1]}[{dc[2] if dc[0] == 'prefix' else ':'}]`: not compared"
             elif dc[0] == "sel" and dr[0] in ("prefix", "whole"):
+                # ASSUMPTION: the chosen directions need not be the leading ones (they are named by a list of axes, not counted from 0)
                 bad = (f"the communicators handed to the handler are `{dc[1]}[a]` for the chosen cartesian directions a (`{dc[3]}`), but the coordinates are "
                        f"`{src(am['coords']) if not isinstance(am['coords'], ast.Name) else dr[1] + ('[' + dr[2] + ']' if dr[0] == 'prefix' else '')}`, "
                        "the LEADING entries of the coordinate list: whenever a chosen direction is not the leading one (e.g. process counts "
@@ -1862,7 +2172,7 @@ def getaxes_definition(chk, mod):
     """getAxes(G, S): (position in G's ordering of the dimension on S's extra process axis, that process axis).  Read in three steps,
     each in the forms it can be written in: the candidate list (S's communicators with those G also has struck out), the first
     candidate left, the returned pair."""
-    ga = mod.func("LayoutSwapper.getAxes")
+    ga = _lib_normal(mod.func("LayoutSwapper.getAxes"))
     env = inline_locals(ga)
     bad = comm_identity_diagnosis(ga)
     und = []
@@ -1880,6 +2190,7 @@ def getaxes_definition(chk, mod):
             gx = xsrc(g_, {k: v for k, v in env.items() if not (isinstance(s_, ast.Name) and k == s_.id)}).replace(" ", "")
             # (3) the gathered-side position
             if gx == f"layout_scattered.dims_order.index(layout_gathered.dims_order[{sn}])":
+                # ASSUMPTION: the returned expression is literally layout_scattered.dims_order.index(layout_gathered.dims_order[<second result>])
                 bad = (f"the first result is `{xsrc(g_, env)}`: a position in the SCATTERED ordering; callers use it to address the gathered layout's "
                        "view, which needs the position of the scattered dimension in the GATHERED ordering")
             elif gx != f"layout_gathered.dims_order.index(layout_scattered.dims_order[{sn}])":
@@ -1911,7 +2222,23 @@ def getaxes_definition(chk, mod):
                     if m_:
                         shared = m_.groups()[-1]
                         break
-            if shared is not None:
+            direct = False
+            if cand is None and shared is None and sdef is not None:
+                # the specification written out: the first position of the scattered handler's communicators that the gathered handler lacks
+                for pat_ in (r"\[(\w+)for\1,(\w+)inenumerate\(handlerS\.communicators\)if\2notinhandlerG\.communicators\]\[0\]",
+                             r"next\(\(?(\w+)for\1,(\w+)inenumerate\(handlerS\.communicators\)if\2notinhandlerG\.communicators\)?\)",
+                             r"\[(\w+)notinhandlerG\.communicatorsfor\1inhandlerS\.communicators\]\.index\(True\)"):
+                    if re.fullmatch(pat_, t):
+                        direct = True
+            if direct:
+                hS = xsrc(ast.parse("handlerS", mode="eval").body, env).replace(" ", "")
+                hG = xsrc(ast.parse("handlerG", mode="eval").body, env).replace(" ", "")
+                if hS != "self._managers[self._handlers[layout_scattered.name]]" or hG != "self._managers[self._handlers[layout_gathered.name]]":
+                    if hS == "self._managers[self._handlers[layout_gathered.name]]" and hG == "self._managers[self._handlers[layout_scattered.name]]":
+                        bad = bad or "the roles of the two handlers are exchanged: the candidates are the GATHERED handler's communicators"
+                    else:
+                        und.append("the two handlers")
+            elif shared is not None:
                 ok1 = any(contains(ga, frag, vars=("c", "i")) for frag in (f"""
 {shared} = set()
 for c in handlerG.communicators:
@@ -1959,6 +2286,8 @@ for c in handlerG.communicators:
                     cdef = env.get(cand)
                     if cdef is not None and src(cdef).replace(" ", "") == "list(handlerS.communicators)" and \
                             not any(isinstance(n, ast.Assign) and isinstance(n.targets[0], ast.Subscript) and src(n.targets[0].value) == cand for n in ast.walk(ga)):
+                        # ASSUMPTION: the candidate list is bound once to list(handlerS.communicators), no element of it is ever assigned, and the
+                        # result is its first entry that is not None
                         bad = "no communicator of the gathered handler is removed from the candidates: the first process axis is returned whatever the handlers share"
                     else:
                         und.append("construction of the candidate list")
